@@ -100,6 +100,28 @@ def invalid_calls(ctx):
                 ctx.fail("C06/optimize/weight-count-mismatch-rejected-after-cycles-ran", f"{len(r['snaps'])} cycles ran", "S-trace", {"job": oracles.job_key(job)})
 
 
+def after_weighted_task(ctx):
+    """the same optimizer instance first solves a WEIGHTED task, then is handed a task without weights: a single-objective one must run, a k-objective one
+    without weights must still be rejected before any cycle (nothing of the earlier task's weights may survive on the instance)"""
+    for name in ("ParticleSwarmOptimization", "GreyWolfOptimization"):
+        for mode in ("serial", "thread"):
+            warm = {"objective": "multi3", "weights": [0.5, 1.0, 2.0], "seed": 5}
+            base = {"name": name, "kind": "cont", "specs": [{"k": "contMulti", "lbs": [-1.0, -1.0], "ubs": [1.0, 1.0]}], "minmax": "min", "weights": None, "seed": 1,
+                    "cfg": {"max_cycles": 2, "fitness_error": None}, "mode": mode, "workers": 2, "warmup": warm}
+            r = trace.run_traced(dict(base, objective="multi3"))
+            ctx.case(("weights-mismatch-after-weighted-task", name, mode), kind="malformed:weights:reused-instance")
+            e = r.get("exception")
+            if not e or e["type"] not in ("ValueError", "ValidationError"):
+                ctx.fail("C06/optimize/weight-count-mismatch-not-rejected", f"3 objectives without weights on an instance that has just solved a weighted task: {e or 'returned a result'}", "S-trace",
+                         {"job": oracles.job_key(dict(base, objective="multi3"))})
+            r = trace.run_traced(dict(base, objective="sphere"))
+            ctx.case(("single-objective-after-weighted-task", name, mode), kind="strict:reused-instance-after-weighted-task")
+            if "result" not in r:
+                e = r.get("exception") or {"type": "setup", "msg": r.get("setup_error"), "func": "?"}
+                ctx.fail(f"C06/{name}/valid-task-fails-after-a-weighted-task-on-the-same-instance", f"{e['type']}: {e.get('msg')} (in {e.get('func')})", "S-trace",
+                         {"job": oracles.job_key(dict(base, objective="sphere"))})
+
+
 def cfg_with_es(rng, name):
     c = jobs.cfg_variants(rng, name, (1, 1, 2, 3, 5), (1, 1, 1.5, 2, 3), (0, 0, 0, 1, 3), 0.3)
     r = rng.random()
@@ -120,6 +142,7 @@ def run(ctx):
              "early stopping / fitness_error variants, early-stopping fields left None; one objective given as scalar + one weight / as a one-element list with and without a weight; instances re-used across solver modes) × serial/thread(/process); baseline: ≥ 3 integer-coded tasks per working (optimizer, encoding) pair; malformed: every combination of "
              "{config present/absent} × workers {None,-3,0,1,4} × mode {None, 3 valid, 3 invalid} + invalid definitions + weight-count mismatches; a case = one run / call; non-trivial = all; distinct by job")
     invalid_calls(ctx)
+    after_weighted_task(ctx)
     names = optimizers.names()
     n = 12 if not ctx.thorough else 80
     js = []
